@@ -16,6 +16,7 @@ from .common import (
     in_alpha,
     outcome,
     seed,
+    untraced,
 )
 
 from liquid2.exceptions import LiquidSyntaxError, LiquidTypeError  # noqa: E402
@@ -71,14 +72,38 @@ def _mk_token(kind: int, text: str, index: int, vlen: int):
     pre=["len(text) <= 3", "in_alpha(text, CTX_ALPHA)", "0 <= index <= len(text)", "0 <= vlen <= 1"],
     timeout=200,
     shard={"named": [False, True], "kind": [0, 1, 2, 3, 4]},
-    covers="str(e), detailed_message(), context() never raise for any error position 0..len(source) and any token kind",
+    covers="str(e), detailed_message(), context() never raise for any error position 0..len(source) and any token kind; the reported line, column and source line are those of the position (LF, CR and CRLF line breaks)",
     bounds="source over {a, LF, CR} len <= 3; index 0..len(source) (end of input included); 5 token kinds; value length 0..1",
     grid=lambda: [(t, i, v, k, n) for t in ("", "a", "a\n", "\n\na", "a\r\n") for i in range(len(t) + 1) for v in (0, 1) for k in range(5) for n in (False, True)],
 )
 def k_errctx(text: str, index: int, vlen: int, kind: int, named: bool) -> bool:
     tok = _mk_token(kind, text, index, vlen)
     e = LiquidSyntaxError("msg", token=tok, template_name="t.liquid" if named else None)
-    return _render_error(e)
+    if not _render_error(e):
+        return False
+    # C17 clause: line and column describe the position (CR, LF and CRLF are each one line break)
+    ctx = e.context()
+    if ctx is None or not text:
+        return True
+    line, col, start, i = 1, 0, 0, 0
+    idx = min(index, len(text) - 1) if index >= len(text) else index
+    while i < idx:
+        if text[i] == "\r" and i + 1 < len(text) and text[i + 1] == "\n":
+            if i + 1 >= idx:
+                break  # the position is the LF of a CRLF: still on this line
+            i += 2
+            line, start = line + 1, i
+        elif text[i] in "\r\n":
+            i += 1
+            line, start = line + 1, i
+        else:
+            i += 1
+    if index >= len(text):
+        return ctx[0] >= 1  # end of input: any in-range description is accepted
+    end = start
+    while end < len(text) and text[end] not in "\r\n":
+        end += 1
+    return ctx[0] == line and ctx[1] == index - start and ctx[3] == text[start:end]
 
 
 @cond(
@@ -414,7 +439,7 @@ def d_float_mixed(name: str, f: int, x: Num, big: bool) -> bool:
     return _only_liquid(t, v=FLOATS[f], w=x) and _only_liquid(t, v=x, w=FLOATS[f])
 
 
-_HOSTILE = [0, -1, 7, 10**30, -(10**30), True, False, None, "", "a", "%s", "é=", "1e400", "-.", " 1", "nan", "inf", [], [1, "a", None], [[1], [2]],
+_HOSTILE = [0, -1, 7, 10**30, -(10**30), 10**5000, True, False, None, "", "a", "%s", "é=", "1e400", "-.", " 1", "nan", "inf", [], [1, "a", None], [[1], [2]],
             {}, {"a": 1}, 0.5, float("inf"), float("-inf"), float("nan"), 1e308, range(3)]
 
 
@@ -425,7 +450,28 @@ _HOSTILE = [0, -1, 7, 10**30, -(10**30), True, False, None, "", "a", "%s", "é="
     grid=lambda: [(n, a, i, j) for n in EVERY_FILTER for a in (0, 1, 2) for i in range(len(_HOSTILE)) for j in (0, 3, 7, 9, 12, 17, 23)],
 )
 def g_every_filter(name: str, arity: int, i: int, j: int) -> bool:
-    return _only_liquid(_filter_template(name, arity), v=_HOSTILE[i], w=_HOSTILE[j], u=_HOSTILE[(i + j) % len(_HOSTILE)])
+    if not _only_liquid(_filter_template(name, arity), v=_HOSTILE[i], w=_HOSTILE[j], u=_HOSTILE[(i + j) % len(_HOSTILE)]):
+        return False
+    if arity == 0:  # the value itself printed, and engine-reserved keyword names supplied by the template
+        return _only_liquid(_PRINT_T, v=_HOSTILE[i]) and _only_liquid(_reserved_template(name), v=_HOSTILE[i], w=_HOSTILE[j])
+    return True
+
+
+_PRINT_T = ENV.from_string("{{ v }}|{{ v | append: 'a' }}|{% assign z = v %}{{ z }}{% capture c %}{{ v }}{% endcapture %}").render
+_RES: dict = {}
+
+
+def _reserved_template(name: str):
+    if name not in _RES:
+        try:
+            _RES[name] = ENV.from_string("{{ v | " + name + ": context: w }}|{{ v | " + name + ": environment: w }}").render
+        except LiquidError:
+            _RES[name] = lambda **d: None
+    return _RES[name]
+
+
+for _n in sorted(ENV.filters):
+    _reserved_template(_n)
 
 
 _DATE_T = [ENV.from_string("{{ v | date: w }}"), ENV.from_string("{{ v | date }}")]
@@ -533,3 +579,50 @@ def d_malformed(blk: int, j: int, cut: int) -> bool:
     except Exception:  # noqa: BLE001
         return False
     return True
+
+
+# --------------------------------------------------------------------------------------
+# D-C02-literals: every tag / expression position x every kind of literal (well-formed programs)
+# --------------------------------------------------------------------------------------
+LIT_KINDS = ["1", "-1", "1.5", "-0.5", "1e2", "2.5e-1", "'s'", '"d"', "true", "false", "nil", "empty", "blank", "(1..2)", "x", "x.y", "x[0]", "x['k']", "'a${x}'"]
+SKELETONS = [
+    "{{ L }}", "{{ L | default: L }}", "{{ L | append: L | size }}", "{{ L if L else L }}", "{{ L, L | join: '-' }}", "{{ \"${L}\" }}",
+    "{% assign v = L %}{{ v }}", "{% echo L %}", "{% cycle L, L %}{% cycle g: L, 1 %}", "{% if L == L %}a{% elsif L %}b{% endif %}", "{% unless L contains L %}a{% endunless %}",
+    "{% case L %}{% when L, 1 %}a{% when L or L %}b{% endcase %}", "{% for i in (1..3) limit: L offset: L %}{{ i }}{% endfor %}", "{% for i in L %}{{ i }}{% endfor %}",
+    "{% with v: L, w: L %}{{ v }}{% endwith %}", "{% render 'p', v: L %}{% include 'p', v: L %}{% render 'p' with L as v %}{% include 'p' for L as v %}",
+    "{% macro m, q: L %}{{ q }}{% endmacro %}{% call m %}{% call m, L %}{% call m, q: L %}", "{% translate c: L, count: L %}a{{ c }}{% plural %}b{% endtranslate %}",
+    "{% tablerow i in (1..2) cols: L %}{{ i }}{% endtablerow %}", "{{ a[L] }}{{ a | map: L }}{{ a | where: L, L | size }}{{ a | find: i => i == L }}", "{% liquid\n  assign v = L\n  echo L\n  if L\n    echo 1\n  endif\n%}",
+    "{% if (L and L) or not (L) %}a{% endif %}{% if L < L %}b{% endif %}{% if L in L %}c{% endif %}",
+]
+_LIT_ENV = ShopifyEnvironment(loader=__import__("liquid2").DictLoader({"p": "[{{ v }}]"}))
+
+
+def _lit_source(sk: int, k1: int, k2: int) -> str:
+    parts = SKELETONS[sk].split("L")
+    out = parts[0]
+    for n, part in enumerate(parts[1:]):
+        out += LIT_KINDS[k1 if n % 2 == 0 else k2] + part
+    return out
+
+
+@cond(
+    pre=["0 <= k1 < len(LIT_KINDS)", "0 <= k2 < len(LIT_KINDS)"],
+    timeout=200,
+    shard={"sk": list(range(len(SKELETONS)))},
+    covers="well-formed programs: every tag and expression position filled with every kind of literal (ints, floats incl. exponent forms, both string quotings, template strings, true/false/nil/empty/blank, ranges, paths): parsing and rendering raise only LiquidError",
+    bounds="22 skeletons x 19 x 19 literal kinds (positions alternate between two solver-chosen kinds); source text is concrete per path",
+    grid=lambda: [(sk, a, b) for sk in range(len(SKELETONS)) for a in range(len(LIT_KINDS)) for b in (0, 2, 6, 10, 13, 14)],
+)
+def d_tag_literals(sk: int, k1: int, k2: int) -> bool:
+    src = _lit_source(sk, concrete_int(k1, 0, len(LIT_KINDS) - 1), concrete_int(k2, 0, len(LIT_KINDS) - 1))
+
+    def run():
+        try:
+            _LIT_ENV.from_string(src).render(x={"y": 1, "k": 2}, a=[{"y": 1}, 2])
+        except LiquidError as e:
+            return _render_error(e)
+        except Exception:  # noqa: BLE001
+            return False
+        return True
+
+    return untraced(run)
